@@ -123,6 +123,25 @@ def check_programs(chk, progs, tag):
         ok = set(maybe) - {maybe[i] for i in still}
         chk.dist["error-class-order-ambiguous"] += len(ok)
         bad = [i for i in bad if i not in ok]
+    # A difference from the reference that is one of C03's RECORDED scoping deviations is not a slot/fill-resolution failure: the program
+    # lies in a known C03 input class (c03_util.classes: predicate on the program text, e.g. a component nested in itself makes its
+    # own binder names collide) AND the implementation still equals the mechanism model M of the current code. Anything else stays a
+    # failure of C01 (same policy as C03's own check; counted in the evidence).
+    if bad:
+        import c03_util
+        cand = [i for i in bad if meta[i][1][0] == "ok" and c03_util.classes(meta[i][0])]
+        if cand:
+            mimports = "From DJC Require Import Lib.Base Core.Syntax Core.Sem Core.Mech."
+            still = C.coq_eval_cases("C01", tag + "m", mimports, "core_case", "check_mech_lenient", [terms[i] for i in cand], shard=50)
+            explained = set(cand) - {cand[j] for j in still}
+            if still:
+                # M answers "unsupported" (a SlotRef passed across a tag as a value): not judged, counted - as in C03's check
+                uns = C.coq_eval_cases("C01", tag + "u", mimports, "core_case", "mech_supported", [terms[cand[j]] for j in still], shard=50)
+                notjudged = {cand[still[j]] for j in uns}
+                chk.dist["c03-known-class, mechanism model unsupported: not judged"] += len(notjudged)
+                explained |= notjudged
+            chk.dist["c03-known-scoping-deviation (impl = mechanism model)"] += len(explained)
+            bad = [i for i in bad if i not in explained]
     for i in sorted(bad, key=lambda i: len(json.dumps(meta[i][0])))[:10]:
         prog, o = meta[i]
         # the property is functional: the reference renderer determines the output, so a difference is a
